@@ -184,7 +184,7 @@ def check_delay(w, r):
     delaypos = None
     n = 0
     for pa in w.roots['behaviour']:
-        if pa.raises:
+        if pa.raises or pa.status == 'loopcut':
             continue
         gets = [i for i, e in enumerate(pa.events) if e.kind == 'pcall' and e.name == 'get']
         if not gets:
@@ -223,6 +223,8 @@ def check_delay(w, r):
                     continue
                 if w.ci.name == 'Combiner' and (e.cls in ('request',) or (e.value and e.value[0] == 'presult' and e.value[1] == 'request')):
                     continue
+                if w.ci.name == 'Combiner' and e.value and e.value[0] == 'callres' and e.value[1].endswith('any_of'):
+                    continue     # waiting for ingredient tokens is part of gathering, not of processing (not bounded by the statement)
                 if w.ci.name == 'Splitter' and (e.value and e.value[0] == 'presult' and e.value[1] == 'request'):
                     continue     # the splitter asks for its (single) slot right after choosing the edge, before the get
                 bad5 = (pa, f'behaviour suspends on `{e.text}` between the pull and the start of processing')
